@@ -142,6 +142,7 @@ def build(sc: dict):
     elif fam == "firewall":
         zones = {"ext": ("10.0.1", 1), "int": ("10.0.2", 2), "dmz": ("10.0.3", 3)}
         za, zb = sc["a_zone"], sc["b_zone"]
+        behind = bool(sc.get("b_behind_router"))
         fw = Firewall.from_config({"type": "firewall", "hostname": "FW", "start_up_duration": 0, "shut_down_duration": shut})
         fw.power_on(); add(fw)
         for z, (pre, port) in zones.items():
@@ -151,15 +152,32 @@ def build(sc: dict):
             getattr(fw, a).add_rule(action=ACLAction.PERMIT, position=10)
         pa, pb = zones[za][0], zones[zb][0]
         global_a = pa + ".10"
-        b_ip = pb + ".20"
+        # `b_behind_router`: B is not on the firewall's zone subnet but behind a further router RI of that zone; the firewall has a
+        # route to B's subnet through the zone port (the destination is then NOT in the zone port's own network)
+        b_ip = "10.0.8.20" if behind else pb + ".20"
+        b_gw = "10.0.8.1" if behind else pb + ".1"
         add(_host(Computer, "A", global_a, pa + ".1", shut)); add(_host(Computer, "C", pa + ".11", pa + ".1", shut))
-        add(_host(Server, "B", b_ip, pb + ".1", shut))
+        add(_host(Server, "B", b_ip, b_gw, shut))
         sw("SW1"); sw("SW2")
         link("A", 1, "SW1", 1, "A-SW1"); link("C", 1, "SW1", 2, "C-SW1"); link("SW1", 6, "FW", zones[za][1], "SW1-FW")
-        link("FW", zones[zb][1], "SW2", 6, "FW-SW2"); link("B", 1, "SW2", 1, "SW2-B")
+        if behind:
+            ri = Router.from_config({"type": "router", "hostname": "RI", "num_ports": 2, "start_up_duration": 0, "shut_down_duration": shut})
+            ri.power_on(); add(ri)
+            ri.configure_port(1, pb + ".2", "255.255.255.0")
+            ri.configure_port(2, "10.0.8.1", "255.255.255.0")
+            ri.acl.add_rule(action=ACLAction.PERMIT, position=10)
+            ri.route_table.set_default_route_next_hop_ip_address(pb + ".1")
+            fw.route_table.add_route("10.0.8.0", "255.255.255.0", pb + ".2")
+            link("FW", zones[zb][1], "RI", 1, "FW-RI"); link("RI", 2, "SW2", 6, "RI-SW2")
+            for p in ri.network_interface:
+                ri.enable_port(p)
+        else:
+            link("FW", zones[zb][1], "SW2", 6, "FW-SW2")
+        link("B", 1, "SW2", 1, "SW2-B")
         for p in fw.network_interface:
             fw.enable_port(p)
-        info = {"b_ip": b_ip, "b_net": pb + ".0/24", "a_ip": global_a, "fw_a_port": zones[za][1], "fw_b_port": zones[zb][1]}
+        info = {"b_ip": b_ip, "b_net": ("10.0.8" if behind else pb) + ".0/24", "a_ip": global_a, "fw_a_port": zones[za][1],
+                "fw_b_port": zones[zb][1]}
     else:
         raise ValueError(fam)
     info.setdefault("a_ip", A_IP)
@@ -218,6 +236,8 @@ def edges(sc: dict) -> List[tuple]:
     if fam == "routed":
         mid = [("R1", "SW2")] if sc.get("routers", 1) == 1 else [("R1", "R2"), ("R2", "SW2")]
         return [("A", "SW1"), ("C", "SW1"), ("SW1", "R1")] + mid + [("SW2", "B")]
+    if sc.get("b_behind_router"):
+        return [("A", "SW1"), ("C", "SW1"), ("SW1", "FW"), ("FW", "RI"), ("RI", "SW2"), ("SW2", "B")]
     return [("A", "SW1"), ("C", "SW1"), ("SW1", "FW"), ("FW", "SW2"), ("SW2", "B")]
 
 
@@ -256,7 +276,7 @@ def protected(sc: dict) -> List[str]:
     elif m == "fw_port_a_disabled":
         removed = [("SW1", "FW")]
     elif m == "fw_port_b_disabled":
-        removed = [("FW", "SW2")]
+        removed = [("FW", "RI") if sc.get("b_behind_router") else ("FW", "SW2")]
     else:
         raise ValueError(m)
     live = [e for e in es if e not in removed and (e[1], e[0]) not in removed]
@@ -447,7 +467,7 @@ def expect_certified_n(sc: dict, prot: List[str]) -> str:
             continue
         if role == "ifaceDown":
             return "uncertifiedN"
-        if role == "interior" and h not in ("A", "B", "C", "SW1", "SW2"):
+        if role == "interior" and h not in ("A", "B", "C", "SW1", "SW2"):  # an interior router / firewall (R1, R2, RI, FW)
             return "uncertifiedN"
     return "certifiedN-fw2" if sc["block"] == "fw_second_stage_deny" else "certifiedN"
 
@@ -656,7 +676,7 @@ def _run_once(sc: dict, with_block: bool, post_ops: List[str], wrappers: bool, p
         return permitted, rule
 
     barrier = set(roles_for(sc)) - set(prot) if with_block else set()
-    to_prot = {"n": 0, "on": False}
+    to_prot = {"n": 0, "arp": 0, "on": False}
     cls = class_patterns(sc, info) if with_block else None
     exempt = arp_exempt(sc)
     closure = {"ok": 0, "bad": []}
@@ -737,7 +757,10 @@ def _run_once(sc: dict, with_block: bool, post_ops: List[str], wrappers: bool, p
         if to_prot["on"] and sender_nic._connected_node.config.hostname in barrier:
             rx = self.endpoint_b if self.endpoint_a is sender_nic else self.endpoint_a
             if rx is not None and rx._connected_node is not None and rx._connected_node.config.hostname in prot:
-                to_prot["n"] += 1
+                # the element's OWN address resolution (an ARP request it builds itself) is counted apart from everything else
+                own_arp = (isinstance(frame.payload, ARPPacket) and frame.payload.request
+                           and frame.payload.sender_mac_addr == sender_nic.mac_address)
+                to_prot["arp" if own_arp else "n"] += 1
         if sender_nic._connected_node.config.hostname in prot and id(frame) not in prot_origin:
             # a frame a PROTECTED node created (B's own keep-alives, replies to what was permitted): when a rule that is specific to
             # attacker sources lets it through, the blocking router forwards it into the attacker side; it is not attacker traffic
@@ -788,7 +811,7 @@ def _run_once(sc: dict, with_block: bool, post_ops: List[str], wrappers: bool, p
         for op in post_ops:
             guarded(op)
         tick()
-    return {"obs": {h: node_obs(N[h]) for h in prot}, "at_block": at_block, "topo": topo, "to_prot": to_prot["n"], "log": log, "errors": errors,
+    return {"obs": {h: node_obs(N[h]) for h in prot}, "at_block": at_block, "topo": topo, "to_prot": to_prot["n"], "to_prot_arp": to_prot["arp"], "log": log, "errors": errors,
             "frame_viol": frame_viol, "closure": closure, "model_ok": model_ok, "model_bad": model_bad[:3]}
 
 
@@ -819,10 +842,16 @@ def run_scenario(sc: dict, control: bool = True) -> dict:
         # towards the protected side does not depend on what the attacker side does
         violations.append({"kind": "blocking-element-emitted-to-protected", "what":
                            f"blocking element put {attack['to_prot']} frames on protected-side wires after the block, {idle['to_prot']} when A idles"})
+    if attack["to_prot_arp"] != idle["to_prot_arp"]:
+        violations.append({"kind": "blocking-element-arp-request-to-protected", "what":
+                           f"blocking element sent {attack['to_prot_arp']} ARP requests of its own into the protected side after the "
+                           f"block, {idle['to_prot_arp']} when A idles"})
     for h in prot:
         d = _first_diff(idle["obs"][h], attack["obs"][h], h)
         if d:
             violations.append({"kind": "protected-state-changed", "node": h, "diff": d})
+    # the host B first: a change of B's own state is what the property forbids in so many words
+    violations.sort(key=lambda v: 0 if v.get("node") == "B" else 1)
     for v in sorted(set(attack["frame_viol"])):
         violations.append({"kind": "denied-frame-not-inert", "what": v})
     res = {"violations": violations, "log": attack["log"], "errors": attack["errors"], "nontrivial": None, "protected": prot,
@@ -848,9 +877,14 @@ def gen_scenario(rng: Rng, max_ops: int = 8) -> dict:
     if fam == "firewall":
         za = rng.choice(["ext", "int", "dmz"])
         sc["a_zone"], sc["b_zone"] = za, rng.choice([z for z in ("ext", "int", "dmz") if z != za])
+        if sc["b_zone"] != "dmz" and rng.chance(1, 3):
+            # B behind a further router of its zone.  Not for the DMZ: the firewall tells "for the DMZ" by `dst in dmz_port.ip_network`
+            # (model: `inDmzNet`), so a host behind a DMZ router is guarded by the internal-inbound / external-outbound list, not by
+            # dmz_inbound_acl — a rule put there is no block for it (zoneTable quirk, kept in the model since round 1)
+            sc["b_behind_router"] = True
     if sc["block"] in ("missing_link", "removed_link"):
         cands = {"switched": ["SW1-SW2", "SW2-B"], "routed": ["SW1-R1", "R1-SW2" if sc.get("routers") == 1 else "R1-R2", "SW2-B"],
-                 "firewall": ["SW1-FW", "FW-SW2", "SW2-B"]}[fam]
+                 "firewall": ["SW1-FW", "FW-RI" if sc.get("b_behind_router") else "FW-SW2", "SW2-B"]}[fam]
         name = rng.choice(cands)
         if sc["block"] == "missing_link":
             sc["missing_links"] = [name]
@@ -878,6 +912,8 @@ def directed_scenarios(rng: Rng) -> List[dict]:
                               ("routed", "router_deny_src_range", {"routers": 1, "at": "R1"}),
                               ("firewall", "fw_port_b_disabled", {"a_zone": "ext", "b_zone": "int"}),
                               ("firewall", "fw_second_stage_deny", {"a_zone": "dmz", "b_zone": "int"}),
+                              ("firewall", "fw_second_stage_deny", {"a_zone": "dmz", "b_zone": "int", "b_behind_router": True}),
+                              ("firewall", "fw_second_stage_deny", {"a_zone": "ext", "b_zone": "int", "b_behind_router": True}),
                               ("firewall", "fw_first_stage_deny", {"a_zone": "int", "b_zone": "ext"})):
         sc = {"family": fam, "block": block, "rule_pos": rng.choice([0, 1, 3]), "pre_ops": [rng.choice(["ping", "db_connect", "tick"])],
               "post_ops": ["ping_gw"] + [rng.choice(tail) for _ in range(2)] + ["ping_gw", rng.choice(tail)]}
@@ -888,8 +924,12 @@ def directed_scenarios(rng: Rng) -> List[dict]:
 
 def sig_of(sc: dict, v: dict) -> dict:
     s = {"kind": v["kind"], "family": sc["family"], "block": sc["block"]}
+    if sc["family"] == "firewall":
+        s["a_zone"] = sc.get("a_zone")
+        s["b_behind_router"] = bool(sc.get("b_behind_router"))
     if v["kind"] == "protected-state-changed":
         s["node"] = v["node"]
+        s["where"] = v["diff"].split(":")[0].split("/")[1].split("[")[0] if "/" in v["diff"].split(":")[0] else ""
     return s
 
 
@@ -904,7 +944,8 @@ def run(ctx: Ctx):
         scenarios.append((f"gen:{k}", gen_scenario(rng, max_ops=ctx.scale(6, 10))))
     clean = 0
     results = [(name, sc, run_scenario(sc, control=True)) for name, sc in scenarios]
-    from harness.lib.core import run_driver
+    from harness.lib.core import load_findings, run_driver, sig_matches
+    open_f = [f for f in load_findings() if f["property"] == "C06" and f.get("status") == "open"]
     all_lines: List[str] = []
     for _, _, res in results:
         all_lines += res["topo"] + res["topo_ctl"]
@@ -1010,16 +1051,29 @@ def run(ctx: Ctx):
             if name.startswith("gen:"):
                 ctx.sample({"rig": "net", "scenario": sc, "log": res["log"][:6]}, cap=5)
             continue
-        v = res["violations"][0]
+        if all(any(sig_matches(f["signature"], sig_of(sc, v)) for f in open_f) for v in res["violations"]):
+            # every violation of this scenario is a recorded open finding (reported KNOWN-FINDING by Ctx.finish)
+            clean += 1
+            ctx.count("net:scenario-shows-only-known-findings")
+            for v in res["violations"]:
+                ctx.violation(sig_of(sc, v), f"{sc['family']}/{sc['block']}: {v.get('diff') or v.get('what')} after {sc['post_ops']}",
+                              {"rig": "net", "scenario": sc, "violations": res["violations"], "log": res["log"], "from": name})
+            continue
+        v = next(v for v in res["violations"] if not any(sig_matches(f["signature"], sig_of(sc, v)) for f in open_f))
 
-        def fails(ops, sc=sc):
-            return bool(run_scenario(dict(sc, post_ops=ops), control=False)["violations"])
+        def fails(ops, sc=sc, kind=v["kind"]):
+            return any(w["kind"] == kind for w in run_scenario(dict(sc, post_ops=ops), control=False)["violations"])
         small = dict(sc, post_ops=shrink_ops(sc["post_ops"], fails, budget=25))
         res2 = run_scenario(small, control=False)
-        if not res2["violations"]:
+        if not any(w["kind"] == v["kind"] for w in res2["violations"]):
             small, res2 = sc, res
-        v = res2["violations"][0]
-        ctx.violation(sig_of(small, v), f"{small['family']}/{small['block']}: {v.get('diff') or v.get('what')} after {small['post_ops']}",
-                      {"rig": "net", "scenario": small, "violations": res2["violations"], "log": res2["log"], "from": name})
+        done = set()
+        for w in res2["violations"]:
+            key = json.dumps(sig_of(small, w), sort_keys=True)
+            if key in done:
+                continue
+            done.add(key)
+            ctx.violation(sig_of(small, w), f"{small['family']}/{small['block']}: {w.get('diff') or w.get('what')} after {small['post_ops']}",
+                          {"rig": "net", "scenario": small, "violations": res2["violations"], "log": res2["log"], "from": name})
     ctx.oblige("rig:R-net protected side unchanged on every scenario", "oracle", clean == len(scenarios),
                f"{len(scenarios) - clean} of {len(scenarios)} scenarios show a change on the protected side")
